@@ -266,6 +266,18 @@ theorem algo_unique_on_views (v : View) (hwf : v.lay.WF) (hne : v.lay ≠ []) (h
     (fun ys => ys.length = (rowsVal v m).length ∧ ys.take (uniq eq (rowsVal v m)).length = uniq eq (rowsVal v m))
     (uniqueProg_list eq (rowsVal v m))
 
+/-- `std::sort(v.begin(), v.end(), lt)` on a view with at most 16 rows (libstdc++ then runs `__insertion_sort`), `lt` a strict
+    weak order on row values: afterwards the rows are a sorted permutation of the rows before -/
+theorem algo_sort16_on_views (v : View) (hwf : v.lay.WF) (hne : v.lay ≠ []) (hinj : v.Injective) (m : Mem α)
+    (lt : List α → List α → Bool) (hasym : ∀ a b, lt a b = true → lt b a = false)
+    (htr : ∀ a b c, lt b a = false → lt c b = false → lt c a = false) (_h16 : (rowsVal v m).length ≤ 16) :
+    ∃ m', (insertionSortProg lt (rowsVal v m).length).runRows v m = some (m', 0) ∧
+      ((rowsVal v m').Perm (rowsVal v m) ∧ (rowsVal v m').Pairwise fun a b => lt b a = false) ∧
+      ∀ a, ¬ v.InImage a → m' a = m a :=
+  rows_on_views v hwf hne hinj m _ (insertionSortProg_typed _ lt _) _
+    (fun ys => ys.Perm (rowsVal v m) ∧ ys.Pairwise fun a b => lt b a = false)
+    (insertionSortProg_list lt hasym htr (rowsVal v m))
+
 /-- sanity of the reference: `unique` on a list with runs of duplicates -/
 example : uniq (fun a b : Nat => a == b) [1, 1, 2, 2, 2, 1, 3, 3] = [1, 2, 1, 3] := by decide
 
@@ -328,6 +340,16 @@ theorem algo_unique_on_elements (v : View) (hwf : v.lay.WF) (hne : v.lay ≠ [])
     (fun ys => ys.length = (elemsVal v m).length ∧ ys.take (uniq eq (elemsVal v m)).length = uniq eq (elemsVal v m))
     (uniqueProg_list eq (elemsVal v m))
 
+theorem algo_sort16_on_elements (v : View) (hwf : v.lay.WF) (hne : v.lay ≠ []) (hinj : v.Injective) (m : Mem α)
+    (lt : α → α → Bool) (hasym : ∀ a b, lt a b = true → lt b a = false)
+    (htr : ∀ a b c, lt b a = false → lt c b = false → lt c a = false) (_h16 : (elemsVal v m).length ≤ 16) :
+    ∃ m', (insertionSortProg lt (elemsVal v m).length).runElems v m = some (m', 0) ∧
+      ((elemsVal v m').Perm (elemsVal v m) ∧ (elemsVal v m').Pairwise fun a b => lt b a = false) ∧
+      ∀ a, ¬ v.InImage a → m' a = m a :=
+  elems_on_views v hwf hne hinj m _ _
+    (fun ys => ys.Perm (elemsVal v m) ∧ ys.Pairwise fun a b => lt b a = false)
+    (insertionSortProg_list lt hasym htr (elemsVal v m))
+
 /-! non-vacuity: the transposed 3×2 view of a 2×3 array at base 10 satisfies every hypothesis of `proxy_refines_seq` /
     `elements_refines_seq`, and insertion sort written against the interface sorts a list of independent rows -/
 example : ∃ v : View, v.lay.WF ∧ v.lay ≠ [] ∧ v.Injective ∧ v.exts = [⟨0, 3⟩, ⟨0, 2⟩] := by
@@ -350,6 +372,9 @@ example : (isortProg (listLex fun (a b : Int) => decide (a < b)) 10 0 3).runList
     = some ([[2, 4], [2, 5], [3, 1]], 0) := by decide +kernel
 
 example : (revProg Nat 5 0 5).runList [1, 2, 3, 4, 5] = some ([5, 4, 3, 2, 1], 0) := by decide +kernel
+
+example : (insertionSortProg (fun a b : Nat => decide (a < b)) 7).runList [3, 1, 2, 3, 0, 5, 1] = some ([0, 1, 1, 2, 3, 3, 5], 0) := by
+  decide +kernel
 
 example : (partitionProg (fun n : Nat => n % 2 == 0) 6).runList [1, 2, 3, 4, 5, 6] = some ([6, 2, 4, 3, 5, 1], 3) := by
   decide +kernel
